@@ -95,3 +95,16 @@ def check_c05(io, time_budget=120):
     res = _run(io, {"x25519": x, "x25519_base": xb, "beforenm": bn, "kx": kx}, time_budget, "C05")
     res["cov"] = cov
     return res
+
+
+def check_c06(io, time_budget=120):
+    def h(d):
+        seed, msg = _b(d["seed"]), _b(d["msg"])
+        pk = M.ed25519_public(seed)
+        s1 = M.ed25519_sign(seed, msg)
+        s2 = M.ed25519_sign(seed, msg, ph=True)
+        ok = d["pk"] == pk.hex() and d["sig"] == s1.hex() and d["sig_ph"] == s2.hex()
+        ok = ok and M.ed25519_verify_rfc(pk, msg, s1) and M.ed25519_verify_rfc(pk, msg, s2, ph=True)
+        ok = ok and not M.ed25519_verify_rfc(pk, msg, s1, ph=True)
+        return (ok, dict(pk=pk.hex(), sig=s1.hex(), sig_ph=s2.hex()))
+    return _run(io, {"ed25519": h}, time_budget, "C06")
